@@ -55,6 +55,8 @@ func (m *TapeManager) GetWriter() (config.DriveWriterConfig, error) {
 		overwrite,
 	)
 	if err != nil {
+		m.physicalLock.Unlock()
+
 		return config.DriveWriterConfig{}, err
 	}
 
@@ -78,13 +80,13 @@ func (m *TapeManager) GetReader() (config.DriveReaderConfig, error) {
 }
 
 func (m *TapeManager) Close() error {
+	defer m.physicalLock.Unlock()
+
 	if m.closer != nil {
 		if err := m.closer(); err != nil {
 			return err
 		}
 	}
-
-	m.physicalLock.Unlock()
 
 	return nil
 }
@@ -106,6 +108,8 @@ func (m *TapeManager) openOrReuseReader() error {
 
 		r, rr, err := OpenTapeReadOnly(m.drive)
 		if err != nil {
+			m.physicalLock.Unlock()
+
 			return err
 		}
 
